@@ -259,6 +259,39 @@ def main():
                 res.fail(f"mesh={et} integral", f"{et}: Integrate_e(x^{expo}) = {got!r}, exact {exact!r}",
                          dict(elem=et, A=A.tolist(), t=t.tolist(), exponents=expo, value=got, exact=exact))
 
+    # ---------- every rule offered, through the element groups: Integrate_e(f, nPg) / Get_weightedJacobian_e_pg(nPg) on a box ----------
+    # (the rules with a negative weight - tetrahedron 5, prism 8 - are reachable this way only; the weighted Jacobians carry the sign of the weight)
+    box = dict(segment=(4.0,), triangle=(2.0, 1.0), quadrangle=(2.0, 1.0), tetrahedron=(2.0, 1.0, 1.5), hexahedron=(2.0, 1.0, 1.5), prism=(2.0, 1.0, 1.5))
+    for (shape, n), gobj in offered.items():
+        if (shape, n) not in SPEC:
+            continue
+        k, kz, _ = SPEC[(shape, n)]
+        size = box[shape]
+        d = len(size)
+        for et in ([REP[shape]] if args.tier == "quick" else [e for e in M.ALL if e.startswith(REP[shape].rstrip("0123456789"))][:2]):
+            meshb = M.mesh_of(et)
+            identB = dict(elem=et, rule=f"{shape}_{n}", box=list(size))
+            res.case((et, "group-api", n))
+            try:
+                groups = M.main_groups(meshb)
+                wJsum = float(sum(np.asarray(g.Get_weightedJacobian_e_pg(n)).sum() for g in groups))
+                vol = float(np.prod(size))
+                got1 = float(sum(g.Integrate_e(lambda x, y, z: 1.0 + 0 * x, n).sum() for g in groups))
+                bad = []
+                if not (abs(wJsum - vol) <= 1e-10 * vol):
+                    bad.append(f"sum of weight x jacobian = {wJsum!r}")
+                if not (abs(got1 - vol) <= 1e-10 * vol):
+                    bad.append(f"Integrate_e(1, {n}) = {got1!r}")
+                if min(k, kz if kz is not None else k) >= 1:
+                    for ax in range(d):
+                        gotx = float(sum(g.Integrate_e(lambda x, y, z, ax=ax: (x, y, z)[ax], n).sum() for g in groups))
+                        if not (abs(gotx - vol * size[ax] / 2) <= 1e-10 * vol * size[ax]):
+                            bad.append(f"Integrate_e({'xyz'[ax]}, {n}) = {gotx!r} (exact {vol * size[ax] / 2!r})")
+                if bad:
+                    res.fail(f"elem={et} rule={shape}_{n} through the element group", f"{et} mesh of a box of measure {vol}: " + "; ".join(bad[:3]), identB)
+            except Exception as ex:  # noqa: BLE001
+                res.fail(f"elem={et} rule={shape}_{n} through the element group raises", f"{type(ex).__name__}: {str(ex)[:150]}", identB)
+
     # ---------- the same exactness whatever was asked of the mesh before, and whatever its orientation ----------
     # A straight-sided mesh mapped by an affine map of positive or negative determinant (mirror images, meshes read
     # with the other node ordering).  Before integrating, a caller interpolates a nodal field at points of the domain
